@@ -39,6 +39,22 @@ UnCase(op, t, a) ==
        IF op = "~" THEN RV(IntT(n), Canon(n, WNot(x)))
        ELSE IF Signed(n) /\ x = MinOf(n) THEN Bad("signed-overflow") ELSE RV(IntT(n), Canon(n, Neg(x)))
 
+(* ---- floating point (the integral, exactly representable values CSem models) ---- *)
+FTypes == {"float", "double"}
+FT(n) == [k |-> "f", n |-> n]
+FMags == IF ValueSet = "small"
+         THEN {Zero, One, W(3), W(128), W(255), W(256), W(65535), W(65536), Shl(One, 24), Sub(Shl(One, 31), One), Shl(One, 31), Sub(Shl(One, 32), One),
+               Shl(One, 32), Shl(One, 53), Shl(One, 63), Sub(Ones, W(2047))}
+         ELSE {Zero, One, W(2), W(3), W(100), W(127), W(128), W(129), W(255), W(256), W(32767), W(32768), W(65535), W(65536), Sub(Shl(One, 24), One), Shl(One, 24),
+               Sub(Shl(One, 31), One), Shl(One, 31), Add(Shl(One, 31), One), Sub(Shl(One, 32), One), Shl(One, 32), Sub(Shl(One, 53), One), Shl(One, 53),
+               Sub(Shl(One, 63), W(1024)), Shl(One, 63), Add(Shl(One, 63), W(2048)), Sub(Ones, W(2047))}
+FVals(n) == {f \in {FV(s, m) : s \in BOOLEAN, m \in FMags} : Representable(f.mag, n)}
+AnyVals(n) == IF n \in FTypes THEN FVals(n) ELSE Vals(n)
+TyOf(n) == IF n \in FTypes THEN FT(n) ELSE IntT(n)
+AsRV(n, x) == RV(TyOf(n), x)
+(* observation of a result: integers as they are; floating results converted to long long when that is defined *)
+ObsOf(r) == IF IsFlt(r.t) THEN (LET c == FToInt("llong", r.v) IN IF c.ok THEN [ok |-> TRUE, v |-> c.v] ELSE [ok |-> FALSE]) ELSE [ok |-> TRUE, v |-> r.v]
+
 Out(rec) == PrintT("VCASE " \o ToJson(rec))
 
 EmitAll ==
@@ -54,6 +70,25 @@ EmitAll ==
          \A a \in Vals(cas.lt) :
            LET r == UnCase(cas.op, cas.lt, a) IN
            r.ok => Out([k |-> "un", op |-> cas.op, lt |-> cas.lt, a |-> a, t |-> r.t.n, v |-> r.v, cs |-> CharSigned])
+    [] cas.kind = "cast2" ->      \* (rt)(mt)a : a narrowing conversion followed by another conversion
+         \A a \in Vals(cas.lt) :
+           LET m == ConvTo(TyOf(cas.mt), AsRV(cas.lt, a))
+               r == IF m.ok THEN ConvTo(TyOf(cas.rt), m) ELSE m
+               o == IF r.ok THEN ObsOf(r) ELSE r IN
+           o.ok => Out([k |-> "cast2", lt |-> cas.lt, mt |-> cas.mt, rt |-> cas.rt, a |-> a, t |-> cas.rt, v |-> o.v, cs |-> CharSigned])
+    [] cas.kind = "f2i" ->        \* (rt)f
+         \A f \in FVals(cas.lt) :
+           LET r == ConvTo(TyOf(cas.rt), AsRV(cas.lt, f)) IN
+           r.ok => Out([k |-> "f2i", lt |-> cas.lt, rt |-> cas.rt, fa |-> f, t |-> cas.rt, v |-> r.v, cs |-> CharSigned])
+    [] cas.kind = "i2f" ->        \* (lt)(rt)a round trip through floating type rt, and the sign test (rt)a < 0
+         \A a \in Vals(cas.lt) :
+           LET f == ConvTo(TyOf(cas.rt), AsRV(cas.lt, a)) IN
+           f.ok => Out([k |-> "i2f", lt |-> cas.lt, rt |-> cas.rt, a |-> a, t |-> cas.lt, v |-> a, neg |-> f.v.neg, cs |-> CharSigned])
+    [] cas.kind = "fbin" ->       \* a op b with at least one floating operand
+         \A a \in AnyVals(cas.lt), b \in AnyVals(cas.rt) :
+           LET r == FloatBin(cas.op, AsRV(cas.lt, a), AsRV(cas.rt, b))
+               o == IF r.ok THEN ObsOf(r) ELSE r IN
+           o.ok => Out([k |-> "fbin", op |-> cas.op, lt |-> cas.lt, rt |-> cas.rt, xa |-> a, xb |-> b, t |-> IF IsFlt(r.t) THEN r.t.n ELSE "int", v |-> o.v, cs |-> CharSigned])
     [] cas.kind = "cast" ->
          \A a \in Vals(cas.lt) :
            Out([k |-> "cast", lt |-> cas.lt, rt |-> cas.rt, a |-> a, t |-> cas.rt, v |-> Conv(cas.rt, a), cs |-> CharSigned])
@@ -63,17 +98,26 @@ Cases ==
   \cup {[kind |-> "casg", op |-> o, lt |-> l, rt |-> r] : o \in BinOpsC \ {"<", "<=", ">", ">=", "==", "!="}, l \in Types \ {"bool"}, r \in Types}
   \cup {[kind |-> "un", op |-> o, lt |-> l, rt |-> l] : o \in UnOpsC, l \in Types}
   \cup {[kind |-> "cast", op |-> "cast", lt |-> l, rt |-> r] : l \in Types, r \in Types}
+  \cup {[kind |-> "cast2", op |-> "cast", lt |-> l, mt |-> m, rt |-> r] : l \in {"int", "uint", "long", "ulong"},
+            m \in {"bool", "char", "schar", "uchar", "short", "ushort", "int", "uint"}, r \in Types \cup FTypes}
+  \cup {[kind |-> "f2i", op |-> "cast", lt |-> l, rt |-> r] : l \in FTypes, r \in Types}
+  \cup {[kind |-> "i2f", op |-> "cast", lt |-> l, rt |-> r] : l \in Types, r \in FTypes}
+  \cup {[kind |-> "fbin", op |-> o, lt |-> l, rt |-> r] : o \in {"+", "-", "*", "/", "<", "<=", ">", ">=", "==", "!="},
+            l \in FTypes, r \in FTypes \cup {"char", "int", "uint", "long", "ulong"}}
+  \cup {[kind |-> "fbin", op |-> o, lt |-> l, rt |-> r] : o \in {"-", "/", "<"}, l \in {"int", "ulong"}, r \in FTypes}
 
-TypeSeq == <<"bool", "char", "schar", "uchar", "short", "ushort", "int", "uint", "long", "ulong", "llong", "ullong">>
+TypeSeq == <<"bool", "char", "schar", "uchar", "short", "ushort", "int", "uint", "long", "ulong", "llong", "ullong", "float", "double">>
 OpSeq == <<"+", "-", "*", "/", "%", "&", "|", "^", "<<", ">>", "<", "<=", ">", ">=", "==", "!=", "~", "!", "cast">>
 IndexIn(seq, x) == CHOOSE i \in 1..Len(seq) : seq[i] = x
-Slice(c) == (IndexIn(OpSeq, c.op) * 7 + IndexIn(TypeSeq, c.lt) * 13 + IndexIn(TypeSeq, c.rt) * 5 + (IF c.kind = "casg" THEN 3 ELSE 0)) % NParts
+Hash(c) == IndexIn(OpSeq, c.op) * 7 + IndexIn(TypeSeq, c.lt) * 13 + IndexIn(TypeSeq, c.rt) * 5 + (IF c.kind = "casg" THEN 3 ELSE 0)
 Part == IF NParts = 1 THEN 0 ELSE atoi(IOEnv.OPCASES_PART)
+NPartsF == IF NParts = 1 THEN 1 ELSE 4            \* the floating-point product is smaller: cut into fewer slices
+InSlice(c) == IF c.kind = "fbin" THEN Hash(c) % NPartsF = Part % NPartsF ELSE Hash(c) % NParts = Part
 
 (* the second program of C_PROGS has unsigned plain char: only cases mentioning char differ *)
 OInit == /\ cpid \in 1..Len(CProgs)
-         /\ cas \in {c \in Cases : c.kind \in {"cast", "un"} \/ Slice(c) = Part}     \* conversions and unary ops are always enumerated completely
-         /\ (cpid > 1 => "char" \in {cas.lt, cas.rt})
+         /\ cas \in {c \in Cases : c.kind \in {"cast", "un", "cast2", "f2i", "i2f"} \/ InSlice(c)}     \* conversions and unary ops are always enumerated completely
+         /\ (cpid > 1 => "char" \in {cas.lt, cas.rt} \/ (cas.kind = "cast2" /\ cas.mt = "char"))
          /\ ck = <<>> /\ env = <<>> /\ genv = <<>> /\ mem = <<>> /\ cout = <<>> /\ cstatus = "gen" /\ cret = Zero /\ cfuel = 0 /\ depth = 0
 ONext == UNCHANGED ovars
 OSpec == OInit /\ [][ONext]_ovars
